@@ -398,5 +398,5 @@ def stages(tier):
     return extra + [
         {"name": "grid", "kind": "enum", "batch": True, "gen": grid_gen, "run": grid_run, "shards": 16, "exhaustive": True},
         {"name": "random", "kind": "hyp", "strategy": lambda tier: random_case(), "run": random_run,
-         "examples": {"quick": 2500, "thorough": 60000}, "shards": 16},
+         "examples": {"quick": 2500, "thorough": 250000}, "shards": 16},
     ]
